@@ -58,6 +58,13 @@ CLAIMS = {
          "target, no other). Tie: real macro + rustc with source/target types whose conversions are pairwise distinguishable.",
          COMMON_NOTE + "types are compared by normalised token string as the code does (opaque ids in the model); the iteration order of the target map is an input of the model here and the subject of C16.",
          "Lean 4 theorem + differential correspondence on returned values"),
+ "C08": ("Theorems default_correct (accepted => T::default() is the type-level expression, else the struct / marked-or-only variant / "
+         "marked-or-only union field with each field = its expression or its type's default), ambiguous_refused (missing or duplicated "
+         "designation is refused), new_eq_default, into_wrap_iff_not_natural (a bare literal is wrapped in Into::into exactly when the "
+         "field type is not the literal's natural type) and non_literal_never_wrapped. Tie: real macro + rustc; oracle values are built "
+         "independently of educe; unions compared by byte image.",
+         COMMON_NOTE + "the value of a user expression is an input of the model (measured by rustc), the model decides which expression goes to which field and whether Into is applied; literal kind/suffix and the field type's token string are read by syn.",
+         "Lean 4 theorem + differential correspondence against independently built values"),
 }
 
 ENGINES = [
